@@ -488,6 +488,7 @@ fn typed_run<S: USet>(args: &[String], label: &str) -> (i32, String) {
         "inline" => "typedinline",
         "dense" => "typeddense",
         "serde" => "serde",
+        "det" => "det",
         p => p,
     };
     let seed: u64 = args[3].parse().unwrap();
